@@ -51,3 +51,58 @@ def rule_shrink_guards(ctx, rule="C13-guard"):
     for st in inlined_sites(b, lambda n: n in ("repr::heap_buffer::HeapBuffer::with_exact_capacity", "repr::heap_buffer::HeapBuffer::new", "repr::inline_buffer::InlineBuffer::new")):
         src = st.desc(0)
         ctx.ob(rule, b.path, "copy-source:" + st.label(), src.startswith("repr::heap_buffer::HeapBuffer::as_str(") and "p1" in src, how="copies heap.as_str()", detail="shrink_to copies %s" % src)
+
+
+def rule_realloc_lands(ctx, rule="C13-lands"):
+    """HeapBuffer::realloc(new_capacity) returns Ok only after the buffer records new_capacity: every
+    block that builds the Ok result is dominated by a fresh Header written with Capacity::new(p2)
+    (in place, after the allocator call) or by `*self = <buffer allocated with that capacity>`.
+    An Ok without either leaves capacity() at the old value: a shrink that did not land, or a
+    reservation that promises room it never got."""
+    from guards import describe, anchors
+    F = ctx.F
+    fn = "repr::heap_buffer::HeapBuffer::realloc"
+    b = F.bodies.get(fn)
+    ctx.need(rule, fn, "anchor", b is not None, "HeapBuffer::realloc not found")
+    if not b:
+        return
+    CAP = "repr::heap_buffer::internal::Capacity::"
+    newcap = "ok(%snew(p2))" % CAP
+    rec = []   # blocks after which the recorded capacity is new_capacity
+    for bb, blk in enumerate(b.blocks):
+        for s in blk["stmts"]:
+            if s["k"] != "assign":
+                continue
+            rv = s["rv"]
+            if rv["k"] == "aggregate" and rv.get("adt") == "repr::heap_buffer::Header":
+                if any(describe(b, b.origin_operand(f)) == newcap for f in rv["fields"]):
+                    rec.append(bb)
+            if s["lhs"]["l"] == 1 and s["lhs"]["p"] == ["deref"]:
+                e = strip_refs(b.origin_rvalue(rv))
+                d = describe(b, e)
+                if e[0] in ("mem", "local"):
+                    # a `let mut new_buf = ...?;` that was filled through &mut before being moved in
+                    d = " | ".join(describe(b, ("call", x[0]) if x[1] == "term" else b.origin_rvalue(x[2])) for x in b.defs.get(e[1], []))
+                if ("HeapBuffer::with_capacity(%sas_usize(%s))" % (CAP, newcap)) in d or ("HeapBuffer::allocate_ptr(%s)" % newcap) in d:
+                    rec.append(bb)
+    # a header written inside a private helper the anchor calls (write_header(ptr, capacity))
+    for bb, t in b.calls():
+        k = t.get("local_key")
+        if k and k in F.bodies and k not in anchors(F):
+            hb = F.bodies[k]
+            sub = {i + 1: describe(b, b.origin_operand(a)) for i, a in enumerate(t["args"])}
+            for blk in hb.blocks:
+                for s in blk["stmts"]:
+                    if s["k"] == "assign" and s["rv"]["k"] == "aggregate" and s["rv"].get("adt") == "repr::heap_buffer::Header":
+                        if any(describe(hb, hb.origin_operand(f), 0, sub) == newcap for f in s["rv"]["fields"]):
+                            rec.append(bb)
+    ctx.need(rule, fn, "records", bool(rec), "realloc never records the new capacity (no Header{capacity: Capacity::new(new_capacity)} write, no replacement buffer)", how="%d recording site(s)" % len(rec))
+    n = 0
+    for bb, blk in enumerate(b.blocks):
+        for s in blk["stmts"]:
+            if s["k"] == "assign" and s["lhs"]["l"] == 0 and not s["lhs"]["p"] and s["rv"]["k"] == "aggregate" and s["rv"].get("variant_name") == "Ok":
+                ok = any(b.dominates(r, bb) for r in rec)
+                ctx.ob(rule, fn, "ok-after-record#%d" % n, ok, line=s.get("line", 0), how="Ok dominated by the write of the new capacity",
+                       detail="realloc can return Ok without having recorded the new capacity: capacity() keeps the old value although the caller was told the buffer now has the requested one")
+                n += 1
+    ctx.need(rule, fn, "ok-sites", n >= 1, "realloc has no Ok return", how="%d Ok return(s)" % n)
